@@ -263,3 +263,61 @@ def run(ctx, rep):
     if not pending:
         r.finding("table|never-inserts", where, "no state inserts a terminator before an ordinary token")
     r.note("state variables: %s; pending states: %s" % (names, ", ".join(show(x) for x in sorted(pending)) or "none"))
+    rule_arm(ctx, rep, b, head, entry, st, pending)
+
+
+def statement_closers(g):
+    """token kinds that end a statement: the last terminal of every production `statement` dispatches to.  After such a token an extra `;`
+    is harmless, because a statement list accepts empty statements; anywhere else (END_STRUCT in a TYPE block) it is a syntax error."""
+    out, seen, todo = set(), set(), ["statement"]
+    while todo:
+        rn = todo.pop()
+        if rn in seen or rn not in g.rules:
+            continue
+        seen.add(rn)
+        ex = g.rules[rn].expr
+        for sq in (ex.alts if ex.kind == "choice" else [ex]):
+            els = [e for e in sq.elems if not (e.prim.kind == "call" and e.prim.name == "_") and not e.look]
+            if not els:
+                continue
+            if len(els) == 1 and els[0].prim.kind == "call" and g.terminal(els[0].prim) is None:
+                todo.append(els[0].prim.name)
+                continue
+            t = g.terminal(els[-1].prim)
+            if t and t[0] == "tok":
+                out.add(t[1])
+    return out
+
+
+def rule_arm(ctx, rep, b, head, entry, st, pending):
+    """G5: which token kinds make a terminator pending?  The table is evaluated for every variant of TokenType from every state that is not
+    pending; a token that arms the inserter must be one that ends a statement (derived from the grammar), because the inserter also fires
+    when the `;` is present after a line break (`END_IF<newline>;` becomes `END_IF;<newline>;`), which only a statement list forgives."""
+    import itertools
+    r = rep.rule("R-C08-endif-arm", "only a keyword that ends a statement makes the terminator inserter pending (evaluated for every TokenType variant): "
+                                    "elsewhere the doubled `;` it can produce is a syntax error", floor=100, floor_what="TokenType variants evaluated")
+    where = "%s:%d" % (b.f["file"], b.f["line"])
+    closers = statement_closers(ctx.peg)
+    if "EndIf" not in closers:
+        rep.error("R-C08-endif-arm", "the grammar walk from `statement` does not reach END_IF (closers: %s)" % sorted(closers))
+        return
+    variants = [v["name"] for v in ctx.facts.adts[TT]["variants"]]
+    c = b.call_at(head)
+    try:
+        for v in variants:
+            arms = False
+            for bits in itertools.product([False, True], repeat=len(st)):
+                if bits in pending:
+                    continue
+                store2, ins = run_body(b, head, entry, dict(zip(st, bits)), v, c.dest[0])
+                if tuple(store2[l] for l in st) in pending:
+                    arms = True
+            if not arms:
+                r.ok(v, where, "does not arm")
+            elif v in closers:
+                r.ok(v, where, "arms; ends a statement")
+            else:
+                r.finding("%s|arms-outside-statements" % v, where, "after %s a terminator becomes pending, but %s does not end a statement: when the source has the `;` on the next line the inserted one "
+                          "doubles it, which is a syntax error outside a statement list" % (v, v))
+    except Stuck as e:
+        r.finding("shape|not-evaluable", where, "cannot evaluate the loop body for every token kind: %s" % e)
